@@ -13,7 +13,7 @@ use std::collections::{HashMap, HashSet};
 pub const DEF: PropDef = PropDef {
     id: "C06",
     level: "model_checking",
-    rule: "explicit-state BFS from the empty state over ~56 actions (index writes with numeric / dictionary keys, nested writes, rock in all forms, roll, copies by assignment / element / function argument and result, scalar coercion, error actions, observation actions) on three variables; states deduplicated on a canonical key = values + sharing partition of array occurrences; every transition (state, action) is replayed as a full program (history + action + observation of all three variables, every index 0..len, every dictionary key, one level of nesting) on the real interpreter and compared with the reference; depth-bounded, the frontier does not close",
+    rule: "explicit-state BFS from the empty state over ~56 actions (index writes with numeric / dictionary keys incl. the number-like string key "1", nested writes, rock in all forms, roll, copies by assignment / element / function argument and result, scalar coercion, error actions, observation actions) on three variables; states deduplicated on a canonical key = values + sharing partition of array occurrences; every transition (state, action) is replayed as a full program (history + action + observation of all three variables, every index 0..len, every dictionary key, the fixed probe keys "k" "j" true false null mysterious "0" "1" "2" "true" "null" "", one level of nesting) on the real interpreter and compared with the reference; depth-bounded, the frontier does not close",
     assumptions: &[
         "canonicalisation: the future of a copy-on-write implementation depends only on values and on which occurrences may still share storage; sharing is only possible along copy chains without intervening write, which is the partition carried in the key",
         "states with sequences longer than 4 or nesting deeper than 2 are validated but not expanded (caps reported)",
@@ -27,7 +27,7 @@ pub const PRELUDE: &str = "mu takes k\nrock k with 9\nlet k at 0 be 8\ngive back
 
 pub fn action_texts() -> Vec<String> {
     let mut v: Vec<String> = Vec::new();
-    for k in ["0", "1", "3", "\"k\"", "true", "null", "mysterious", "\"j\""] {
+    for k in ["0", "1", "3", "\"k\"", "true", "null", "mysterious", "\"j\"", "\"1\""] {
         for val in ["7", "\"s\"", "y"] {
             v.push(format!("let x at {} be {}\n", k, val));
         }
@@ -263,7 +263,7 @@ pub fn observation_suffix(vals: &[Option<V>; 3]) -> String {
                 for j in 0..=a.seq.len() {
                     s.push_str(&format!("say {} at {}\n", name, j));
                 }
-                for k in ["\"k\"", "\"j\"", "true", "false", "null", "mysterious"] {
+                for k in ["\"k\"", "\"j\"", "true", "false", "null", "mysterious", "\"0\"", "\"1\"", "\"2\"", "\"true\"", "\"null\"", "\"\""] {
                     s.push_str(&format!("say {} at {}\n", name, k));
                 }
                 let elems: Vec<(String, &V)> = a
